@@ -11,6 +11,10 @@ GEN   call histories from TLC -simulate on ClusterAPISim (re-pins identical to /
       (cluster-DAG block failing / a shard block failing / none) and consensus fault injection (LogUnpin failing for
       a shard in either position / the cluster-DAG / the meta pin / a data pin, LogPin failing) each with a retry.
 R     each history is executed on a real Cluster; after each call Cluster.Pins(), result and LogPin/LogUnpin are recorded.
+DEFER ClusterAPIDeferMC: the consensus acknowledges LogPin/LogUnpin into a queue, reads see the committed pinset, Flush
+      commits in order; every history with Flush at every position is checked (FlushOK: at a flushed state the pinset is
+      the sequential application of the acknowledged successful calls) and replayed on a real Cluster over
+      rig.DeferredState; TLC judges every flushed state.
 V     TLC (ClusterAPITrace) evaluates EffectOK (property) and StepOK (transcription) on every recorded tuple.
 """
 import json
@@ -40,7 +44,8 @@ MS_GOOD = {"p1": "v1", "p2": "v0", "p3": "v2"}
 
 def env(follower=False, d=(1, 2), strat="asc", ms=None, fail=(), logfail=()):
     return {"follower": follower, "dmin": d[0], "dmax": d[1], "strat": strat, "ms": dict(ms or MS_GOOD),
-            "paths": PATHS, "blocks": BLOCKS, "fail": list(fail), "logfail": [list(x) for x in logfail]}
+            "paths": PATHS, "blocks": BLOCKS, "fail": list(fail), "logfail": [list(x) for x in logfail],
+            "deferred": False}
 
 
 def sharded(cids=("m1", "d1", "s1", "s2")):
@@ -135,6 +140,29 @@ def logfault_scripts():
     return out
 
 
+def deferred_scripts(ctx, rng):
+    """ClusterAPIDeferMC: exhaustive check of the deferred-consensus design (Flush at every position); every history of
+    the emitted lengths is printed by TLC and replayed (quick: all short ones + a seeded sample of the long ones)."""
+    cfg = "ClusterAPIDeferMC_quick.cfg" if ctx.quick() else "ClusterAPIDeferMC_thorough.cfg"
+    r = ctx.tlc("ClusterAPIDeferMC.tla", cfg, workers=1, timeout=2400)
+    hs = []
+    for m in re.finditer(r'^"HIST (.*)"$', r.out, re.M):
+        hs.append(json.loads(json.loads('"' + m.group(1) + '"')))
+    if len(hs) < 1000:
+        raise vcheck.Infra("ClusterAPIDeferMC emitted only %d histories" % len(hs))
+    short = [h for h in hs if len(h["steps"]) <= 3]
+    long_ = [h for h in hs if len(h["steps"]) > 3]
+    rng.shuffle(long_)
+    keep = short + long_[:(1200 if ctx.quick() else 30000)]
+    bad = ctx.tlc("ClusterAPIDeferMC.tla", "ClusterAPIDeferMC_nologpin.cfg", count=False, expect_violation=True, workers=2,
+                  timeout=600)
+    if not bad.violation:
+        raise vcheck.Infra("a pin() whose same-options branch does not submit LogPin no longer violates FlushOK in the "
+                           "model: the deferred model lost its sensitivity")
+    ctx.extra["deferred_histories_emitted"] = len(hs)
+    return [{"src": "deferred", "env": h["env"], "pre": h["pre"], "steps": h["steps"]} for h in keep]
+
+
 def witness_script(out):
     """Turn the TLC counterexample of the as-coded configuration into a replay script."""
     m = re.search(r'State 2:[^\n]*\n(.*?)\n\n', out, re.S)
@@ -204,6 +232,8 @@ def key_of(rec):
     op = c["op"]
     pre = "C04:%s:" % op + ("follower:" if rec["env"]["follower"] else "")
     res = "ok" if rec["obs"]["ok"] else "refused"
+    if op == "flush":
+        return "C04:flush:" + ",".join(w["call"]["op"] + ("" if w["ok"] else "!") for w in rec["obs"]["win"])
     if op in ("pin", "pinpath", "rpcpin"):
         return pre + changed_dims(rec) + ":" + res
     if op == "update":
@@ -255,6 +285,7 @@ def generate(ctx):
     scripts += sweep
     scripts += fault_scripts()
     scripts += logfault_scripts()
+    scripts += deferred_scripts(ctx, rng)
     # follower scripts on a loaded pinset (taken from a simulated history's initial context when there is one)
     ctxs = [s["pre"] for s in scripts if s["src"] == "sim" and len(s["pre"]) > 1]
     if ctxs:
